@@ -89,6 +89,18 @@ def handleWith (d : Data) : Handler :=
       let missing := e.mustWrite.filter fun a => !(ws.contains a)
       if extraR.isEmpty && extraW.isEmpty && missing.isEmpty then some "holds"
       else some s!"fails extra-read={showStrs extraR} extra-write={showStrs extraW} not-written={showStrs missing}") "bad-args"
+  -- the same for the *flattened* description: the trace also covers the attribute objects (`solver.x`, …) that were
+  -- objects before the call; names under a parameter object of unknown class (assumption) are skipped
+  | "c16.spec_trace_flat", [n, reads, writes] => some <| Option.getD (do
+      let e ← findEst n
+      let f ← e.flatten tbl fuel
+      let rs ← strList? reads
+      let ws ← strList? writes
+      let skip := fun (a : String) => e.assumptions.any fun p => a.startsWith (p ++ ".")
+      let extraR := rs.filter fun a => !(skip a || f.readsFirst.contains a || f.logs.contains a || e.normAttrs.contains a)
+      let extraW := ws.filter fun a => !(skip a || f.mayWrite.contains a || f.logs.contains a || e.normAttrs.contains a)
+      if extraR.isEmpty && extraW.isEmpty then some "holds"
+      else some s!"fails extra-read={showStrs extraR} extra-write={showStrs extraW}") "no-flattened-description"
   -- the history theorem's prediction for an observed comparison: `equal` expected iff historyOK
   | "c16.spec_history", [n, observed] => some <| match findEst n with
       | none => "no-such-class"
